@@ -23,6 +23,7 @@ Missing (assumed, see docs/C07.md): "promptly" in seconds, scheduling of the wat
 machine code below the SSA, host functions that do not return.
 -/
 import Wz.Proofs.C07_Ctl
+import Wz.Gen.Shapes
 
 namespace Wz.C07
 open Wz.Model.Ctl Wz.Gen.Close
@@ -230,5 +231,13 @@ theorem C07_stop_code (p : Prog) (D : Nat) (w : BitVec 64) (st : Stack) (c : Nat
 -- stops at its first step with ExitCodeContextCanceled.
 example : stepC (lowerCtl true witness) 1 (fire 0#64 .canceled true) (initStack (lowerCtl true witness) 0) 0
     = some (.inr 0xffffffff#32) := rfl
+
+
+/-- **Regenerated obligation** (wasm/module_instance.go): both places that turn a finished context into an exit
+code classify `ctx.Err()` - which is `Canceled` / `DeadlineExceeded` whatever application-level cause was attached
+(`context.WithCancelCause` etc.) - and not `context.Cause(ctx)`. -/
+theorem context_errors_classified_by_Err :
+    Wz.Gen.Shapes.get "c07.watcher_cases" = some "errors.Is(ctx.Err(), context.Canceled) ;; errors.Is(ctx.Err(), context.DeadlineExceeded)" ∧
+    Wz.Gen.Shapes.get "c07.ctxerr_cases" = some "errors.Is(ctx.Err(), context.Canceled) ;; errors.Is(ctx.Err(), context.DeadlineExceeded)" := by decide
 
 end Wz.C07
